@@ -14,7 +14,7 @@ SRC = os.path.join(CRATE, "src")
 CACHE = os.path.join(VERIF, ".cache")
 EVIDENCE = os.path.join(VERIF, "evidence")
 REPLAYS = os.path.join(VERIF, "replays")
-KANI_DIR = os.path.join(VERIF, "kani")
+KANI_DIR = os.environ.get("VERIF_KANI_DIR", os.path.join(VERIF, "kani"))
 VERUS_DIR = os.path.join(VERIF, "verus")
 
 EXIT_OK, EXIT_VIOLATION, EXIT_UNDECIDED = 0, 1, 2
